@@ -10,40 +10,553 @@ import (
 	"encoding/base64"
 	"errors"
 	"os"
+	"strconv"
 	"strings"
 
 	"Havoc/pkg/agent"
 )
 
-type verifRow map[string]any
+// ---------------------------------------------------------------------------------------
+// A small relational engine standing in for SQLite inside gosx. It executes the SQL text the
+// code under analysis really sends (CREATE TABLE / INSERT / UPDATE / DELETE / SELECT with
+// "col = ?" conditions joined by AND or OR), so a changed statement changes the outcome.
+// SQLite semantics that matter to C10 are modelled explicitly:
+//   * column type affinity is derived from the declared type by SQLite's rules, and text that
+//     is a well-formed integer literal is converted when stored in a column of NUMERIC,
+//     INTEGER or REAL affinity (it reads back in canonical form: "007" -> "7");
+//   * UNIQUE columns reject a second row with the same value;
+//   * every statement is atomic and durable (journalling itself is outside the model).
+// Text that looks like a real literal (digits with '.', 'e', 'E') is outside the model.
 
-var (
-	verifTable   []verifRow
-	verifStmtSQL = map[*sql.Stmt]string{}
-	verifRowsOf  = map[*sql.Rows]*verifCursor{}
-)
+type verifSQLNum string // text that SQLite stored as a number; reads back in canonical form
 
-type verifCursor struct {
-	cols []string
-	rows []verifRow
-	pos  int
-	cnt  bool
+type verifSQLCol struct {
+	name     string
+	affinity string // TEXT, NUMERIC, INTEGER, REAL, BLOB
+	unique   bool
 }
 
-func verifCols(list string) []string {
-	var out []string
-	for _, c := range strings.Split(list, ",") {
-		c = strings.TrimSpace(c)
-		if i := strings.Index(c, " "); i >= 0 {
-			c = c[:i]
-		}
-		out = append(out, c)
+type verifSQLTable struct {
+	name string
+	cols []verifSQLCol
+	rows [][]any
+}
+
+type verifSQLCond struct {
+	col   int
+	param int // index into args, or -1 when lit is used
+	lit   int64
+}
+
+var (
+	verifTables  []*verifSQLTable
+	verifStmtSQL = map[*sql.Stmt]string{}
+	verifRowsOf  = map[*sql.Rows]*verifCursor{}
+	// crash model: statements still to be executed before the process dies (-1 = never)
+	verifKillAfter = -1
+	verifDied      = false
+)
+
+var errVerifDied = errors.New("verif: process killed")
+
+type verifCursor struct {
+	rows [][]any
+	pos  int
+}
+
+func verifUnquote(s string) string {
+	s = strings.TrimSpace(s)
+	return strings.Trim(s, "\"`")
+}
+
+func verifAffinityOf(decl string) string {
+	d := strings.ToUpper(decl)
+	switch {
+	case strings.Contains(d, "INT"):
+		return "INTEGER"
+	case strings.Contains(d, "CHAR") || strings.Contains(d, "CLOB") || strings.Contains(d, "TEXT"):
+		return "TEXT"
+	case strings.Contains(d, "BLOB") || strings.TrimSpace(d) == "":
+		return "BLOB"
+	case strings.Contains(d, "REAL") || strings.Contains(d, "FLOA") || strings.Contains(d, "DOUB"):
+		return "REAL"
 	}
-	return out
+	return "NUMERIC"
+}
+
+func verifTableByName(name string) *verifSQLTable {
+	for _, t := range verifTables {
+		if t.name == name {
+			return t
+		}
+	}
+	return nil
+}
+
+func (t *verifSQLTable) col(name string) int {
+	name = verifUnquote(name)
+	for i, c := range t.cols {
+		if c.name == name {
+			return i
+		}
+	}
+	return -1
+}
+
+func verifIsSpace(c byte) bool {
+	return c == ' ' || c == '\t' || c == '\n' || c == '\r' || c == '\v' || c == '\f'
+}
+
+// verifIntLiteral: is s (after trimming white space) an optional sign followed by digits
+// only; the canonical decimal spelling of that integer is returned.
+func verifIntLiteral(s string) (string, bool) {
+	a, b := 0, len(s)
+	for a < b && verifIsSpace(s[a]) {
+		a++
+	}
+	for b > a && verifIsSpace(s[b-1]) {
+		b--
+	}
+	neg := false
+	if a < b {
+		if s[a] == '+' {
+			a++
+		} else if s[a] == '-' {
+			neg = true
+			a++
+		}
+	}
+	if a == b {
+		return "", false
+	}
+	for k := a; k < b; k++ {
+		if s[k] < '0' {
+			return "", false
+		}
+		if s[k] > '9' {
+			return "", false
+		}
+	}
+	for a < b-1 && s[a] == '0' {
+		a++
+	}
+	digits := s[a:b]
+	if digits == "0" {
+		return "0", true
+	}
+	if neg {
+		return "-" + digits, true
+	}
+	return digits, true
+}
+
+// verifLooksReal: digits together with '.', 'e' or 'E' (outside the model)
+func verifLooksReal(s string) bool {
+	digit, mark := false, false
+	for k := 0; k < len(s); k++ {
+		c := s[k]
+		if c >= '0' {
+			if c <= '9' {
+				digit = true
+			}
+		}
+		if c == '.' {
+			mark = true
+		}
+		if c == 'e' {
+			mark = true
+		}
+		if c == 'E' {
+			mark = true
+		}
+	}
+	if digit {
+		return mark
+	}
+	return false
+}
+
+// verifStore converts a bound argument to what SQLite keeps in a column of this affinity.
+func verifStore(aff string, v any) (any, error) {
+	switch x := v.(type) {
+	case int:
+		return int64(x), nil
+	case int32:
+		return int64(x), nil
+	case int64:
+		return x, nil
+	case bool:
+		if x {
+			return int64(1), nil
+		}
+		return int64(0), nil
+	case string:
+		if aff == "TEXT" || aff == "BLOB" {
+			return x, nil
+		}
+		if canon, ok := verifIntLiteral(x); ok {
+			return verifSQLNum(canon), nil
+		}
+		verif_assume(!verifLooksReal(x)) // real-literal-looking text: outside the model
+		return x, nil
+	}
+	return nil, errors.New("verif: argument type not modelled")
+}
+
+func verifSQLEq(a, b any) bool {
+	switch x := a.(type) {
+	case int64:
+		if y, ok := b.(int64); ok {
+			return x == y
+		}
+	case string:
+		if y, ok := b.(string); ok {
+			return x == y
+		}
+		if y, ok := b.(verifSQLNum); ok {
+			return x == string(y)
+		}
+	case verifSQLNum:
+		if y, ok := b.(verifSQLNum); ok {
+			return x == y
+		}
+		if y, ok := b.(string); ok {
+			return string(x) == y
+		}
+	}
+	return false
+}
+
+// verifParseWhere parses "a = ? AND b = 1" (one connective kind per clause)
+func verifParseWhere(t *verifSQLTable, w string, firstParam int) ([]verifSQLCond, bool, error) {
+	w = strings.TrimSpace(strings.TrimSuffix(strings.TrimSpace(w), ";"))
+	or := false
+	var parts []string
+	if strings.Contains(w, " OR ") {
+		or = true
+		parts = strings.Split(w, " OR ")
+		if strings.Contains(w, " AND ") {
+			return nil, false, errors.New("verif: mixed AND/OR not modelled: " + w)
+		}
+	} else {
+		parts = strings.Split(w, " AND ")
+	}
+	var conds []verifSQLCond
+	p := firstParam
+	for _, part := range parts {
+		kv := strings.Split(part, "=")
+		if len(kv) != 2 {
+			return nil, false, errors.New("verif: condition not modelled: " + part)
+		}
+		ci := t.col(kv[0])
+		if ci < 0 {
+			return nil, false, errors.New("no such column: " + kv[0])
+		}
+		rhs := strings.TrimSpace(kv[1])
+		if rhs == "?" {
+			conds = append(conds, verifSQLCond{col: ci, param: p})
+			p++
+		} else {
+			n, err := strconv.ParseInt(rhs, 10, 64)
+			if err != nil {
+				return nil, false, errors.New("verif: literal not modelled: " + rhs)
+			}
+			conds = append(conds, verifSQLCond{col: ci, param: -1, lit: n})
+		}
+	}
+	return conds, or, nil
+}
+
+func verifMatch(t *verifSQLTable, row []any, conds []verifSQLCond, or bool, args []any) (bool, error) {
+	if len(conds) == 0 {
+		return true, nil
+	}
+	res := !or
+	for _, c := range conds {
+		var want any = c.lit
+		if c.param >= 0 {
+			if c.param >= len(args) {
+				return false, errors.New("verif: not enough arguments")
+			}
+			v, err := verifStore(t.cols[c.col].affinity, args[c.param])
+			if err != nil {
+				return false, err
+			}
+			want = v
+		}
+		hit := verifSQLEq(row[c.col], want)
+		if or {
+			if hit {
+				res = true
+			}
+		} else {
+			if !hit {
+				res = false
+			}
+		}
+	}
+	return res, nil
+}
+
+// verifExec runs a data-changing statement.
+func verifExec(q string, args []any) error {
+	if verifDied {
+		return errVerifDied
+	}
+	if verifKillAfter == 0 {
+		verifDied = true
+		return errVerifDied
+	}
+	if verifKillAfter > 0 {
+		verifKillAfter--
+	}
+	q = strings.TrimSpace(q)
+	switch {
+	case strings.HasPrefix(q, "CREATE TABLE"):
+		a := strings.Index(q, "(")
+		b := strings.LastIndex(q, ")")
+		name := verifUnquote(q[len("CREATE TABLE"):a])
+		if verifTableByName(name) != nil {
+			return errors.New("table " + name + " already exists")
+		}
+		t := &verifSQLTable{name: name}
+		for _, def := range strings.Split(q[a+1:b], ",") {
+			f := strings.Fields(def)
+			if len(f) == 0 {
+				return errors.New("verif: empty column definition")
+			}
+			decl := strings.Join(f[1:], " ")
+			uniq := strings.Contains(strings.ToUpper(decl), "UNIQUE")
+			decl = strings.TrimSpace(strings.Replace(strings.Replace(decl, "UNIQUE", "", 1), "unique", "", 1))
+			t.cols = append(t.cols, verifSQLCol{name: verifUnquote(f[0]), affinity: verifAffinityOf(decl), unique: uniq})
+		}
+		verifTables = append(verifTables, t)
+		return nil
+	case strings.HasPrefix(q, "INSERT INTO "):
+		rest := q[len("INSERT INTO "):]
+		a := strings.Index(rest, "(")
+		b := strings.Index(rest, ")")
+		t := verifTableByName(verifUnquote(rest[:a]))
+		if t == nil {
+			return errors.New("no such table: " + rest[:a])
+		}
+		names := strings.Split(rest[a+1:b], ",")
+		vals := rest[b+1:]
+		if strings.Count(vals, "?") != len(names) {
+			return errors.New("verif: " + strconv.Itoa(strings.Count(vals, "?")) + " values for " + strconv.Itoa(len(names)) + " columns")
+		}
+		if len(args) != len(names) {
+			return errors.New("verif: argument count mismatch")
+		}
+		row := make([]any, len(t.cols))
+		for i, n := range names {
+			ci := t.col(n)
+			if ci < 0 {
+				return errors.New("no such column: " + n)
+			}
+			v, err := verifStore(t.cols[ci].affinity, args[i])
+			if err != nil {
+				return err
+			}
+			row[ci] = v
+		}
+		for ci, c := range t.cols {
+			if c.unique {
+				for _, old := range t.rows {
+					if verifSQLEq(old[ci], row[ci]) {
+						return errors.New("UNIQUE constraint failed: " + t.name + "." + c.name)
+					}
+				}
+			}
+		}
+		t.rows = append(t.rows, row)
+		return nil
+	case strings.HasPrefix(q, "UPDATE "):
+		rest := q[len("UPDATE "):]
+		si := strings.Index(rest, " SET ")
+		t := verifTableByName(verifUnquote(rest[:si]))
+		if t == nil {
+			return errors.New("no such table: " + rest[:si])
+		}
+		rest = rest[si+len(" SET "):]
+		where := ""
+		if wi := strings.Index(rest, " WHERE "); wi >= 0 {
+			where = rest[wi+len(" WHERE "):]
+			rest = rest[:wi]
+		}
+		type set struct {
+			col   int
+			param int
+			lit   int64
+		}
+		var sets []set
+		p := 0
+		for _, asg := range strings.Split(rest, ",") {
+			kv := strings.Split(asg, "=")
+			if len(kv) != 2 {
+				return errors.New("verif: assignment not modelled: " + asg)
+			}
+			ci := t.col(kv[0])
+			if ci < 0 {
+				return errors.New("no such column: " + kv[0])
+			}
+			rhs := strings.TrimSpace(kv[1])
+			if rhs == "?" {
+				sets = append(sets, set{col: ci, param: p})
+				p++
+			} else {
+				n, err := strconv.ParseInt(rhs, 10, 64)
+				if err != nil {
+					return errors.New("verif: literal not modelled: " + rhs)
+				}
+				sets = append(sets, set{col: ci, param: -1, lit: n})
+			}
+		}
+		var conds []verifSQLCond
+		or := false
+		if where != "" {
+			var err error
+			conds, or, err = verifParseWhere(t, where, p)
+			if err != nil {
+				return err
+			}
+		}
+		for _, row := range t.rows {
+			hit, err := verifMatch(t, row, conds, or, args)
+			if err != nil {
+				return err
+			}
+			if hit {
+				for _, s := range sets {
+					if s.param < 0 {
+						row[s.col] = s.lit
+						continue
+					}
+					if s.param >= len(args) {
+						return errors.New("verif: not enough arguments")
+					}
+					v, err := verifStore(t.cols[s.col].affinity, args[s.param])
+					if err != nil {
+						return err
+					}
+					row[s.col] = v
+				}
+			}
+		}
+		return nil
+	case strings.HasPrefix(q, "DELETE FROM "):
+		rest := q[len("DELETE FROM "):]
+		where := ""
+		if wi := strings.Index(rest, " WHERE "); wi >= 0 {
+			where = rest[wi+len(" WHERE "):]
+			rest = rest[:wi]
+		}
+		t := verifTableByName(verifUnquote(rest))
+		if t == nil {
+			return errors.New("no such table: " + rest)
+		}
+		var conds []verifSQLCond
+		or := false
+		if where != "" {
+			var err error
+			conds, or, err = verifParseWhere(t, where, 0)
+			if err != nil {
+				return err
+			}
+		}
+		var keep [][]any
+		for _, row := range t.rows {
+			hit, err := verifMatch(t, row, conds, or, args)
+			if err != nil {
+				return err
+			}
+			if !hit {
+				keep = append(keep, row)
+			}
+		}
+		t.rows = keep
+		return nil
+	}
+	return errors.New("verif: statement not modelled: " + q)
+}
+
+// verifQuery runs a SELECT.
+func verifQuery(q string, args []any) (*sql.Rows, error) {
+	if verifDied {
+		return nil, errVerifDied
+	}
+	q = strings.TrimSpace(q)
+	if !strings.HasPrefix(q, "SELECT ") {
+		return nil, errors.New("verif: query not modelled: " + q)
+	}
+	fi := strings.Index(q, " FROM ")
+	list := q[len("SELECT "):fi]
+	rest := q[fi+len(" FROM "):]
+	where := ""
+	if wi := strings.Index(rest, " WHERE "); wi >= 0 {
+		where = rest[wi+len(" WHERE "):]
+		rest = rest[:wi]
+	}
+	t := verifTableByName(verifUnquote(rest))
+	if t == nil {
+		return nil, errors.New("no such table: " + rest)
+	}
+	var conds []verifSQLCond
+	or := false
+	if where != "" {
+		var err error
+		conds, or, err = verifParseWhere(t, where, 0)
+		if err != nil {
+			return nil, err
+		}
+	}
+	count := strings.TrimSpace(list) == "COUNT(*)"
+	var cols []int
+	if !count {
+		for _, n := range strings.Split(list, ",") {
+			ci := t.col(n)
+			if ci < 0 {
+				return nil, errors.New("no such column: " + n)
+			}
+			cols = append(cols, ci)
+		}
+	}
+	cur := &verifCursor{}
+	n := int64(0)
+	for _, row := range t.rows {
+		hit, err := verifMatch(t, row, conds, or, args)
+		if err != nil {
+			return nil, err
+		}
+		if hit {
+			n++
+			if !count {
+				out := make([]any, len(cols))
+				for i, ci := range cols {
+					out[i] = row[ci]
+				}
+				cur.rows = append(cur.rows, out)
+			}
+		}
+	}
+	if count {
+		cur.rows = [][]any{{n}}
+	}
+	r := new(sql.Rows)
+	verifRowsOf[r] = cur
+	return r, nil
+}
+
+//verif:stub (*database/sql.DB).Exec
+func verifStubDBExec(d *sql.DB, q string, args ...any) (sql.Result, error) {
+	return nil, verifExec(q, args)
 }
 
 //verif:stub (*database/sql.DB).Prepare
 func verifStubPrepare(d *sql.DB, query string) (*sql.Stmt, error) {
+	if verifDied {
+		return nil, errVerifDied
+	}
 	st := new(sql.Stmt)
 	verifStmtSQL[st] = query
 	return st, nil
@@ -52,89 +565,19 @@ func verifStubPrepare(d *sql.DB, query string) (*sql.Stmt, error) {
 //verif:stub (*database/sql.Stmt).Close
 func verifStubStmtClose(st *sql.Stmt) error { return nil }
 
-func verifSame(a, b any) bool {
-	switch x := a.(type) {
-	case int:
-		if y, ok := b.(int); ok {
-			return x == y
-		}
-	case string:
-		if y, ok := b.(string); ok {
-			return x == y
-		}
-	}
-	return false
-}
-
 //verif:stub (*database/sql.Stmt).Exec
 func verifStubStmtExec(st *sql.Stmt, args ...any) (sql.Result, error) {
-	q := verifStmtSQL[st]
-	switch {
-	case strings.HasPrefix(q, "INSERT INTO TS_Agents"):
-		a := strings.Index(q, "(")
-		b := strings.Index(q, ")")
-		cols := verifCols(q[a+1 : b])
-		if len(cols) != len(args) {
-			return nil, errors.New("verif: column/argument count mismatch")
-		}
-		row := verifRow{}
-		for i, c := range cols {
-			row[c] = args[i]
-		}
-		verifTable = append(verifTable, row)
-	case strings.HasPrefix(q, "UPDATE TS_Agents SET"):
-		w := strings.Index(q, " WHERE ")
-		sets := strings.Split(q[len("UPDATE TS_Agents SET"):w], ",")
-		whereCol := strings.TrimSpace(strings.Split(q[w+len(" WHERE "):], "=")[0])
-		if len(sets)+1 != len(args) {
-			return nil, errors.New("verif: column/argument count mismatch")
-		}
-		for _, row := range verifTable {
-			if verifSame(row[whereCol], args[len(args)-1]) {
-				for i, s := range sets {
-					row[strings.TrimSpace(strings.Split(s, "=")[0])] = args[i]
-				}
-			}
-		}
-	default:
-		return nil, errors.New("verif: statement not modelled: " + q)
-	}
-	return nil, nil
+	return nil, verifExec(verifStmtSQL[st], args)
 }
 
 //verif:stub (*database/sql.Stmt).Query
 func verifStubStmtQuery(st *sql.Stmt, args ...any) (*sql.Rows, error) {
-	q := verifStmtSQL[st]
-	r := new(sql.Rows)
-	if strings.HasPrefix(q, "SELECT COUNT(*) FROM TS_Agents WHERE") {
-		col := strings.TrimSpace(strings.Split(q[strings.Index(q, " WHERE ")+7:], "=")[0])
-		n := 0
-		for _, row := range verifTable {
-			if verifSame(row[col], args[0]) {
-				n++
-			}
-		}
-		verifRowsOf[r] = &verifCursor{cnt: true, rows: []verifRow{{"n": n}}}
-		return r, nil
-	}
-	return nil, errors.New("verif: query not modelled: " + q)
+	return verifQuery(verifStmtSQL[st], args)
 }
 
 //verif:stub (*database/sql.DB).Query
 func verifStubDBQuery(d *sql.DB, q string, args ...any) (*sql.Rows, error) {
-	r := new(sql.Rows)
-	if strings.HasPrefix(q, "SELECT ") && strings.Contains(q, " FROM TS_Agents WHERE Active = 1") {
-		cols := verifCols(q[len("SELECT "):strings.Index(q, " FROM ")])
-		var rows []verifRow
-		for _, row := range verifTable {
-			if verifSame(row["Active"], 1) {
-				rows = append(rows, row)
-			}
-		}
-		verifRowsOf[r] = &verifCursor{cols: cols, rows: rows}
-		return r, nil
-	}
-	return nil, errors.New("verif: query not modelled: " + q)
+	return verifQuery(q, args)
 }
 
 //verif:stub (*database/sql.Rows).Next
@@ -149,95 +592,130 @@ func verifStubRowsNext(r *sql.Rows) bool {
 //verif:stub (*database/sql.Rows).Close
 func verifStubRowsClose(r *sql.Rows) error { return nil }
 
+// Scan converts like database/sql.convertAssign for the kinds the code uses.
+//
 //verif:stub (*database/sql.Rows).Scan
 func verifStubRowsScan(r *sql.Rows, dest ...any) error {
 	c := verifRowsOf[r]
 	row := c.rows[c.pos]
 	c.pos++
-	if c.cnt {
-		*(dest[0].(*int)) = row["n"].(int)
-		return nil
+	if len(dest) != len(row) {
+		return errors.New("sql: expected " + strconv.Itoa(len(row)) + " destination arguments in Scan, not " + strconv.Itoa(len(dest)))
 	}
-	if len(dest) != len(c.cols) {
-		return errors.New("verif: scan destination count mismatch")
-	}
-	for i, col := range c.cols {
-		v := row[col]
+	for i, v := range row {
 		switch d := dest[i].(type) {
 		case *int:
-			switch x := v.(type) {
-			case int:
-				*d = x
-			case int64:
-				*d = int(x)
-			case int32:
-				*d = int(x)
-			default:
-				return errors.New("verif: type mismatch for column " + col)
-			}
-		case *int64:
-			switch x := v.(type) {
-			case int64:
-				*d = x
-			case int:
-				*d = int64(x)
-			default:
-				return errors.New("verif: type mismatch for column " + col)
-			}
-		case *int32:
-			switch x := v.(type) {
-			case int32:
-				*d = x
-			case int:
-				*d = int32(x)
-			default:
-				return errors.New("verif: type mismatch for column " + col)
-			}
-		case *string:
-			x, ok := v.(string)
+			x, ok := v.(int64)
 			if !ok {
-				return errors.New("verif: type mismatch for column " + col)
+				return errors.New("sql: Scan error: converting text to int is not modelled")
+			}
+			*d = int(x)
+		case *int64:
+			x, ok := v.(int64)
+			if !ok {
+				return errors.New("sql: Scan error: converting text to int64 is not modelled")
 			}
 			*d = x
+		case *int32:
+			x, ok := v.(int64)
+			if !ok {
+				return errors.New("sql: Scan error: converting text to int32 is not modelled")
+			}
+			*d = int32(x)
+		case *string:
+			switch x := v.(type) {
+			case string:
+				*d = x
+			case verifSQLNum:
+				*d = string(x)
+			case nil:
+				return errors.New("sql: Scan error: converting NULL to string is unsupported")
+			default:
+				return errors.New("sql: Scan error: integer to string is not modelled")
+			}
+		default:
+			return errors.New("verif: Scan destination type not modelled")
 		}
 	}
 	return nil
 }
 
-// base64 as an injective, reversible text encoding (inside gosx only)
-//
+// base64 as an injective, reversible text encoding (inside gosx only); the alphabet is part
+// of the encoding, so text written with one alphabet does not decode with the other
+func verifB64Tag(e *base64.Encoding) string {
+	if e == base64.StdEncoding {
+		return "b64s:"
+	}
+	return "b64?:"
+}
+
 //verif:stub (*encoding/base64.Encoding).EncodeToString
-func verifStubB64Enc(e *base64.Encoding, src []byte) string { return "b64:" + string(src) }
+func verifStubB64Enc(e *base64.Encoding, src []byte) string { return verifB64Tag(e) + string(src) }
 
 //verif:stub (*encoding/base64.Encoding).DecodeString
 func verifStubB64Dec(e *base64.Encoding, s string) ([]byte, error) {
-	if !strings.HasPrefix(s, "b64:") {
-		return nil, errors.New("verif: not base64")
+	if !strings.HasPrefix(s, verifB64Tag(e)) {
+		return nil, errors.New("verif: not base64 of this alphabet")
 	}
-	return []byte(s[4:]), nil
+	return []byte(s[5:]), nil
 }
 
+var verifDBPath string
+
+// verifOpenDB opens a fresh database: inside gosx the relational model (the real init()
+// creates the tables from the real CREATE TABLE text), natively a new SQLite file.
 func verifOpenDB() *DB {
 	if verif_symbolic() {
-		verifTable = nil
-		return &DB{db: new(sql.DB), existed: false}
+		verifTables = nil
+		verifKillAfter = -1
+		verifDied = false
+		d := &DB{db: new(sql.DB), existed: false}
+		if err := d.init(); err != nil {
+			panic(err)
+		}
+		return d
 	}
 	dir, err := os.MkdirTemp("", "verifdb")
 	if err != nil {
 		panic(err)
 	}
-	d, err := DatabaseNew(dir + "/ts.db")
+	verifDBPath = dir + "/ts.db"
+	d, err := DatabaseNew(verifDBPath)
 	if err != nil {
 		panic(err)
 	}
 	return d
 }
 
+// verifReopen is a restart of the teamserver on the same database file.
+func verifReopen() *DB {
+	if verif_symbolic() {
+		verifKillAfter = -1
+		verifDied = false
+		return &DB{db: new(sql.DB), existed: true}
+	}
+	d, err := DatabaseNew(verifDBPath)
+	if err != nil {
+		panic(err)
+	}
+	return d
+}
+
+// verifWord: metadata text of n arbitrary printable ASCII characters (digits, blanks and
+// signs included: text that looks like a number is where SQLite's column affinity matters)
 func verifWord(name string, n int) string {
 	b := nondet_bytes(name, n)
 	for _, c := range b {
-		// letters only: text that looks numeric is rewritten by SQLite's column affinity, which
-		// this slice does not model (stated in DESIGN.md C10)
+		verif_assume(c >= 0x20)
+		verif_assume(c < 0x7f)
+	}
+	return string(b)
+}
+
+// verifLetters: n arbitrary lower-case letters
+func verifLetters(name string, n int) string {
+	b := nondet_bytes(name, n)
+	for _, c := range b {
 		verif_assume(c >= 'a')
 		verif_assume(c <= 'z')
 	}
@@ -262,12 +740,12 @@ func H_c10_agent_roundtrip() {
 	a := &agent.Agent{NameID: verifHex8(id), Active: true, Info: new(agent.AgentInfo)}
 	a.Encryption.AESKey = nondet_bytes("key", 2)
 	a.Encryption.AESIv = nondet_bytes("iv", 2)
-	a.Info.Hostname = verifWord("hostname", 1+nondet_choice("hostname-len", 2))
-	a.Info.Username = verifWord("username", 1)
-	a.Info.DomainName = verifWord("domain", 1)
+	a.Info.Hostname = verifLetters("hostname", 1+nondet_choice("hostname-len", 2))
+	a.Info.Username = verifLetters("username", 1)
+	a.Info.DomainName = verifLetters("domain", 1)
 	a.Info.ExternalIP = "e"
 	a.Info.InternalIP = "i"
-	a.Info.ProcessName = verifWord("procname", 1)
+	a.Info.ProcessName = verifLetters("procname", 1)
 	a.Info.ProcessArch = "x"
 	a.Info.Elevated = "t"
 	a.Info.OSVersion = "o"
@@ -285,6 +763,7 @@ func H_c10_agent_roundtrip() {
 
 	err := d.AgentAdd(a)
 	verif_assert(err == nil, "registering a session persists it (every 32-bit id)")
+	d = verifReopen()
 	all := d.AgentAll()
 	verif_assert(len(all) == 1, "exactly the registered session is restored")
 	if len(all) == 1 {
@@ -318,17 +797,184 @@ func H_c10_agent_roundtrip() {
 	a.Info.Hostname = "zz"
 	a.Info.SleepDelay = 77
 	verif_assert(d.AgentUpdate(a) == nil, "updating a persisted session succeeds")
+	d = verifReopen()
 	all = d.AgentAll()
 	verif_assert(len(all) == 1, "an update neither adds nor removes a session")
 	if len(all) == 1 {
 		verif_assert(all[0].Info.Hostname == "zz", "updated Hostname is persisted")
 		verif_assert(all[0].Info.SleepDelay == 77, "updated SleepDelay is persisted")
 		verif_assert(all[0].Info.Username == a.Info.Username, "an update leaves the other fields")
+		verif_assert(string(all[0].Encryption.AESKey) == string(a.Encryption.AESKey), "key after an update")
+		verif_assert(string(all[0].Encryption.AESIv) == string(a.Encryption.AESIv), "IV after an update")
 	}
 	// death
 	a.Active = false
 	a.Reason = "dead"
 	verif_assert(d.AgentUpdate(a) == nil, "marking a persisted session dead succeeds")
 	verif_assert(len(d.AgentAll()) == 0, "dead agents are not restored")
+	verif_witness()
+}
+
+// H_c10_links: after any sequence of 1..4 link additions/removals over three agents and a
+// restart, the database yields exactly the parent/child pairs that were added and not removed.
+func H_c10_links() {
+	d := verifOpenDB()
+	ids := []int{0x11, 0x80000022, 0x33}
+	var ref [3][3]bool
+	n := 1 + nondet_choice("ops", verif_bound("link-ops", 3, 4))
+	for k := 0; k < n; k++ {
+		p := nondet_choice("parent", 3)
+		c := nondet_choice("child", 3)
+		if nondet_bool("remove") {
+			verif_assert(d.LinkRemove(ids[p], ids[c]) == nil, "removing a link succeeds")
+			ref[p][c] = false
+		} else {
+			err := d.LinkAdd(ids[p], ids[c])
+			if ref[p][c] {
+				verif_assert(err != nil, "a second copy of a link is refused")
+			} else {
+				verif_assert(err == nil, "adding a link succeeds")
+			}
+			ref[p][c] = true
+		}
+	}
+	d = verifReopen()
+	for p := 0; p < 3; p++ {
+		got := d.LinksOf(ids[p])
+		want := 0
+		for c := 0; c < 3; c++ {
+			if ref[p][c] {
+				want++
+				found := 0
+				for _, g := range got {
+					if g == ids[c] {
+						found++
+					}
+				}
+				verif_assert(found == 1, "a recorded link is restored exactly once")
+			}
+			verif_assert(d.LinkExist(ids[p], ids[c]) == ref[p][c], "exactly the recorded pairs exist after the restart")
+		}
+		verif_assert(len(got) == want, "no link is restored that was not recorded")
+	}
+	for c := 0; c < 3; c++ {
+		parents := 0
+		for p := 0; p < 3; p++ {
+			if ref[p][c] {
+				parents++
+			}
+		}
+		par, err := d.ParentOf(ids[c])
+		if parents == 0 {
+			verif_assert(err != nil, "an agent without a recorded parent has none after the restart")
+		}
+		if parents == 1 {
+			verif_assert(err == nil, "a recorded parent is found after the restart")
+			for p := 0; p < 3; p++ {
+				if ref[p][c] {
+					verif_assert(par == ids[p], "the restored parent is the recorded one")
+				}
+			}
+		}
+	}
+	verif_witness()
+}
+
+// H_c10_listeners: after any sequence of 1..3 listener additions/removals over arbitrary
+// names (two name slots, 1..2 printable characters, digit-only names included) and a
+// restart, exactly the listeners added and not removed come back, each with the protocol
+// and configuration text it was saved with.
+func H_c10_listeners() {
+	d := verifOpenDB()
+	names := []string{verifWord("name-a", 1+nondet_choice("name-a-len", 2)), verifWord("name-b", 1+nondet_choice("name-b-len", 2))}
+	verif_assume(names[0] != names[1])
+	confs := []string{verifWord("config-a", 2), verifWord("config-b", 2)}
+	var present [2]bool
+	n := 1 + nondet_choice("ops", 3)
+	for k := 0; k < n; k++ {
+		i := nondet_choice("which", 2)
+		if nondet_bool("remove") {
+			verif_assert(d.ListenerRemove(names[i]) == nil, "removing a listener succeeds")
+			present[i] = false
+		} else {
+			err := d.ListenerAdd(names[i], "Smb", confs[i])
+			if present[i] {
+				verif_assert(err != nil, "a second listener of the same name is refused")
+			} else {
+				verif_assert(err == nil, "adding a listener succeeds")
+			}
+			present[i] = true
+		}
+	}
+	d = verifReopen()
+	all := d.ListenerAll()
+	want := 0
+	for i := 0; i < 2; i++ {
+		if present[i] {
+			want++
+			found := 0
+			for _, l := range all {
+				if l["Name"] == names[i] {
+					found++
+					verif_assert(l["Protocol"] == "Smb", "restored protocol")
+					verif_assert(l["Config"] == confs[i], "restored configuration, byte for byte")
+				}
+			}
+			verif_assert(found == 1, "a saved listener is restored exactly once under its own name")
+		}
+		verif_assert(d.ListenerExist(names[i]) == present[i], "exactly the saved listeners exist after the restart")
+	}
+	verif_assert(len(all) == want, "no listener is restored that was not saved")
+	verif_assert(d.ListenerCount() == want, "listener count after the restart")
+	verif_witness()
+}
+
+// H_c10_agent_text: recorded metadata comes back byte for byte whatever the text looks like:
+// one text field of a registration (host, user, domain, process name, OS version) holds 1..3
+// arbitrary printable ASCII characters - digit-only, leading zeros, signs and blank padding
+// included - and is compared after a restart.
+func H_c10_agent_text() {
+	d := verifOpenDB()
+	a := &agent.Agent{NameID: "00a1b2c3", Active: true, Info: new(agent.AgentInfo)}
+	a.Encryption.AESKey = []byte{1, 2}
+	a.Encryption.AESIv = []byte{3, 4}
+	a.Info.Hostname, a.Info.Username, a.Info.DomainName, a.Info.ProcessName, a.Info.OSVersion = "h", "u", "d", "p", "o"
+	a.Info.ExternalIP, a.Info.InternalIP, a.Info.ProcessArch, a.Info.Elevated, a.Info.OSArch = "e", "i", "x", "t", "r"
+	a.Info.FirstCallIn, a.Info.LastCallIn = "f", "l"
+	which := nondet_choice("field", 5)
+	text := verifWord("text", 1+nondet_choice("text-len", verif_bound("text-maxlen", 3, 4)))
+	switch which {
+	case 0:
+		a.Info.Hostname = text
+	case 1:
+		a.Info.Username = text
+	case 2:
+		a.Info.DomainName = text
+	case 3:
+		a.Info.ProcessName = text
+	case 4:
+		a.Info.OSVersion = text
+	}
+	verif_assert(d.AgentAdd(a) == nil, "registering a session persists it")
+	d = verifReopen()
+	all := d.AgentAll()
+	verif_assert(len(all) == 1, "exactly the registered session is restored")
+	if len(all) == 1 {
+		r := all[0]
+		var got string
+		switch which {
+		case 0:
+			got = r.Info.Hostname
+		case 1:
+			got = r.Info.Username
+		case 2:
+			got = r.Info.DomainName
+		case 3:
+			got = r.Info.ProcessName
+		case 4:
+			got = r.Info.OSVersion
+		}
+		verif_assert(got == text, "recorded metadata is restored byte for byte")
+	}
 	verif_witness()
 }
